@@ -38,6 +38,8 @@ def entry_programs(ctx, F):
         if short in F.short:
             out.append((short, ctx.paths(F, short, OPTS), False))
     out.append(("PrefixMap::new_node", ctx.paths(F, "PrefixMap::new_node", OPTS), True))
+    for where, paths in C.retain_paths(ctx, F):
+        out.append((where, paths, False))
     for f in F.lib_fns():
         short = F.short_of[f["path"]]
         is_h, variant = c04.handle_of(F, short)
@@ -70,7 +72,7 @@ def run_config(ctx, rep, cfg, F):
         n_freed = 0
         for where, paths, ret_fresh in entry_programs(ctx, F):
             C.report_unrecognised(rep, "R16.1", where, paths, F)
-            entered |= C.functions_entered(paths) | {where.split(";")[-1]}
+            entered |= C.functions_entered(paths) | {where.split(";")[-1].split("[")[0]}
             sampled = False
             for p in paths:
                 if p.result[0] not in ("ret", "cut"):
@@ -138,8 +140,6 @@ def run_config(ctx, rep, cfg, F):
         for short in writers:
             base = short.split("::{closure")[0]
             if base in ("<map::IntoIter as Iterator>::next",):
-                continue
-            if base == "PrefixMap::_retain":
                 continue
             if base not in entered:
                 rep.bad("R16.1", short, "uninterpreted", "MIR shows a write of Node::left/right or PrefixMap::free in %s but no "
